@@ -3,7 +3,7 @@
 # For each seeded change: apply it to /repo, run the check of the property it breaks
 # (and every other claimed check when ALL=1), undo it.  Prints DETECTED / MISSED.
 cd "$(dirname "$0")/.."
-seeds=("$@"); [ ${#seeds[@]} -eq 0 ] && seeds=(seeded/*/)
+seeds=("$@"); [ ${#seeds[@]} -eq 0 ] && seeds=(seeded/C*/)
 claimed=$(python3 -c "import json;print(' '.join(c['property_id'] for c in json.load(open('MANIFEST.json'))['checks']))")
 git -C /repo diff --quiet || { echo "/repo has uncommitted changes"; exit 2; }
 for s in "${seeds[@]}"; do
